@@ -255,7 +255,7 @@ retry:
 		goto retry
 	}
 	if err != nil {
-		user.CloseSession(ci.SessionId, "")
+		user.terminateIfEmpty()
 		log.Error(err)
 		return
 	}
